@@ -39,7 +39,7 @@ Filters == {"abs", "append", "at_least", "at_most", "base64_decode", "base64_enc
 Vals == {"nil", "true", "false", "zero", "neg", "huge", "float", "inf", "nan", "empty", "abc", "digits", "exp", "nanstr", "percent",
          "badb64", "b64bin", "nonascii", "manydigits", "list", "nested", "dict", "dicts", "strs", "mixed", "range", "undefined", "date",
          "fmt", "neghuge", "tuple", "deep", "ts", "tsstr"}
-ArgVals == {"nil", "zero", "neg", "huge", "float", "nan", "empty", "abc", "digits", "percent", "list", "dict", "undefined", "true"}
+ArgVals == {"nil", "zero", "neg", "huge", "float", "nan", "empty", "abc", "digits", "percent", "list", "dict", "undefined", "true", "neghuge"}
 
 Carriers == {"for", "forlimit", "foroffset", "forboth", "tablerow", "tablerowcols", "tablerowlimit", "range", "rangeboth", "cycle", "cyclegroup",
              "case", "when", "lt", "le", "eq", "contains", "containsr", "and", "index", "indexr", "dot", "size", "first", "include", "includefor",
